@@ -547,7 +547,14 @@ def rank_entry(sz):
 
 
 def rank_post(p):
-    pre = 'C11._pareto_rank'
+    return rank_post_for('C11._pareto_rank')(p)
+
+
+def rank_post_for(pre):
+    return lambda p: _rank_post(p, pre)
+
+
+def _rank_post(p, pre):
     g = p.run.c11
     P, n, d = g['P'], g['n'], g['d']
     if p.kind != 'return':
@@ -1478,6 +1485,242 @@ def fast_preamble(chk, tier):
                '(variant obligation recursion.variant_decreases): partial correctness + termination of the recursion scheme')
 
 
+# ------------------------------------------------------------------------------------------ 5a. xla_pareto (jnp modelled)
+def xla_spy(it, args, kw):
+    """`_is_pareto_optimal_against` called from is_frontier: the REAL body is executed; arguments and result are recorded
+    (ghost) so that the per-shard lemmas of Appendix F can be stated."""
+    b = _bind_args(['yy', 'baseline', 'strict'], args, kw)
+    r = invoke_real(it, method(XLA, '_is_pareto_optimal_against'), args, kw)
+    it.run.c11.setdefault('shards', []).append(dict(cand=b['yy'].copy(), base=b['baseline'].copy(), res=r.copy() if isinstance(r, NDArray) else r))
+    return r
+
+
+def xla_is_dominated_contract(it, args, kw):
+    """`_is_dominated(y1, y2, strict)` by contract when both arguments are rows of arrays (verified against the expanded
+    specification as C11.xla._is_dominated.*): the result is stated with the named sub-formulas GE / GT."""
+    b = _bind_args(['y1', 'y2', 'strict'], args, kw)
+    y1, y2, strict = b['y1'], b['y2'], b.get('strict', True)
+    run = it.run
+    if conc(run.c11['n']) is not None or not (isinstance(y1, NDArray) and isinstance(y2, NDArray) and y1.rowof and y2.rowof):
+        return invoke_real(it, method(XLA, '_is_dominated'), args, kw)
+    (r1, i1, c1), (r2, i2, c2) = y1.rowof, y2.rowof
+    if conc(z3.simplify(zi(c1) - zi(c2))) != 0:
+        return invoke_real(it, method(XLA, '_is_dominated'), args, kw)
+    it.run.oblige('VizierC11.callee_pre._is_dominated.same_length', zi(y1.shape[0]) == zi(y2.shape[0]))
+    GE, GT = row_preds(run, r2, r1, c1, y1.shape[0])
+    return body_of(GE, GT, strict)(i2, i1)
+
+
+def xla_frontier_entry(k, via_class=False):
+    def entry_of(sz):
+        def entry(it):
+            run = it.run
+            n, d = sizes(run, sz)
+            P = fresh_points(run, 'P', n, d, nan_free=False)
+            run.c11 = dict(P=P, n=n, d=d, k=k)
+            run.np_name_writes = True
+            if via_class:
+                cls = ModuleInfo.get(XLA).classes['JaxParetoOptimalAlgorithm']
+                return it.invoke(E.FuncVal(cls.mod, cls.methods['is_pareto_optimal'], cls), [Obj(cls, {}), P.copy()], {})
+            return it.invoke(method(XLA, 'is_frontier'), [P.copy()], {'num_shards': k})
+        return entry
+    return entry_of
+
+
+def xla_frontier_post(pre):
+    def post(p):
+        g = p.run.c11
+        P, n, d = g['P'], g['n'], g['d']
+        if p.kind != 'return':
+            return [(pre + '.no_exception', z3.BoolVal(False))]
+        res = p.value
+        obs = [(pre + '.shape', result_shape_ok(res, n))]
+        if not (isinstance(res, NDArray) and res.rank == 1):
+            return obs
+        if conc(n) is not None:
+            return obs + [(pre + '.iff', QA(n, lambda i: res.at(i) == opt(P, i, n, d)))]
+        c = z3.Int('c!post')
+        rng = z3.And(c >= 0, c < zi(n))
+        shards = g.get('shards', [])
+        masks = [v[1] for v in getattr(p.run, 'np_masks', {}).values()]
+        GEf, GTf = row_preds(p.run, P.fn, P.fn, 0, d)
+        if len(masks) == len(shards) and shards:
+            # per-shard lemmas (Appendix F):  frontier_r[j] <=> frontier_{r-1}[j] and no point of shard r dominates ys[j]
+            front = lambda j: z3.BoolVal(True)
+            cover = []
+            named = getattr(p.run, 'np_named', [])
+            for r, (sh, (cnt, sel, rnk)) in enumerate(zip(shards, masks)):
+                base = sh['base']
+                bf, lo, _ = base.win if base.win is not None else (base.fn, 0, 0)
+                lo_, hi_ = zi(lo), zi(lo) + zi(base.shape[0])
+                cover.append((lo_, hi_))
+                tt = sh['res']
+                prev = front
+                if len(named) == len(shards):
+                    nxt = (lambda j, F=named[r][0]: F(j))          # the content written by `frontier[frontier] = tt` in iteration r
+                else:
+                    nxt = (lambda j, prev=prev, tt=tt, rnk=rnk: z3.If(prev(j), tt.at(rnk(j)), prev(j)))
+                dominated_by_shard = lambda j, lo_=lo_, hi_=hi_: QE(hi_, lambda t: z3.And(GEf(t, j), GTf(t, j)), lo=lo_)
+                obs.append((pre + '.lemma.shard%d' % (r + 1),
+                            need(QA(n, lambda j: nxt(j) == z3.And(prev(j), z3.Not(dominated_by_shard(j)))), 'mask%d' % (r + 1), 'name%d' % (r + 1)), 'lemma'))
+                front = nxt
+            t = z3.Int('t!cov')
+            obs.append((pre + '.lemma.result_is_last_frontier', need(z3.Implies(rng, res.at(c) == front(c))), 'lemma'))
+            obs.append((pre + '.lemma.shards_cover_all_points',
+                        need(z3.ForAll([t], z3.Implies(z3.And(t >= 0, t < zi(n)), z3.Or([z3.And(a <= t, t < b_) for a, b_ in cover])))), 'lemma'))
+            # the specification with GE/GT named (section 4): opt(P, c) = not exists t < n. GE(t, c) and GT(t, c)
+            obs.append((pre + '.iff', need(z3.Implies(rng, res.at(c) == z3.Not(QE(n, lambda t_: z3.And(GEf(t_, c), GTf(t_, c))))))))
+            return obs
+        obs.append((pre + '.iff', z3.Implies(rng, res.at(c) == opt(P, c, n, d))))
+        return obs
+    return post
+
+
+XLA_KNOWN = ('xla_pareto.is_frontier(ys, num_shards=1) compares against no shard and returns all True: np.linspace(0, B, 1) yields one '
+             'boundary, i.e. zero intervals (DESIGN 10 row 19)')
+
+
+def check_xla_frontier(chk, tier, k, via_class=False):
+    E.MODELS[XLA + ':_is_pareto_optimal_against'] = xla_spy
+    E.MODELS[XLA + ':_is_dominated'] = xla_is_dominated_contract
+    name = 'JaxParetoOptimalAlgorithm.is_pareto_optimal' if via_class else 'is_frontier'
+    pre = 'C11.xla.%s' % name
+    tag = '' if via_class else '[num_shards=%d]' % k
+    rn = support_rename(pre)
+    known = None
+    if k == 1 and chk.finding_for('C11.xla.is_frontier.iff[num_shards=1]'):
+        known = {pre + '.iff': (XLA_KNOWN, lambda p: True)}
+    Fn(chk, tier, name, xla_frontier_entry(k, via_class), xla_frontier_post(pre), replay_of=replay_points('xla', {'fn': name, 'num_shards': k}),
+       known=known, bounded_sizes=[(2, 1), (2, 2), (3, 2)], rename=(lambda x: rn(x) + tag), workers=1, expect_paths=1,
+       timeout_ms=8000 if tier == 'quick' else 60000).run()
+
+
+def xla_simple_entry(fn, strict):
+    def entry_of(sz):
+        def entry(it):
+            run = it.run
+            n, m, d = sizes(run, sz, names=('n', 'm', 'd'), lows=(0, 0, 0))
+            P = fresh_points(run, 'P', n, d, nan_free=False)
+            A = fresh_points(run, 'A', m, d, nan_free=False)
+            run.c11 = dict(P=P, A=A, n=n, m=m, d=d, strict=strict)
+            if fn == '_is_pareto_optimal_against':
+                return invoke_real(it, method(XLA, fn), [P.copy(), A.copy()], {'strict': strict})
+            if fn == 'pareto_rank':
+                return it.invoke(method(XLA, fn), [P.copy()], {})
+            i, a = z3.Int('i!row'), z3.Int('a!row')
+            run.c11.update(i=i, a=a)
+            return it.invoke(method(XLA, '_is_dominated'), [P.row(i), A.row(a)], {'strict': strict})
+        return entry
+    return entry_of
+
+
+def xla_simple_post(fn, pre):
+    def post(p):
+        g = p.run.c11
+        P, A, n, m, d, strict = g['P'], g['A'], g['n'], g['m'], g['d'], g['strict']
+        if p.kind != 'return':
+            return [(pre + '.no_exception', z3.BoolVal(False))]
+        res = p.value
+        if fn == '_is_dominated':
+            i, a = g['i'], g['a']
+            want = dom(A, a, P, i, d) if strict else weak(A, a, P, i, d)
+            return [(pre + '.spec', E.zbool(res) == want if not isinstance(res, NDArray) else z3.BoolVal(False))]
+        if fn == '_is_pareto_optimal_against':
+            return post_against(pre)(p)
+        return rank_post_for(pre)(p)
+    return post
+
+
+def check_xla_simple(chk, tier):
+    for strict in (True, False):
+        sfx = 'strict' if strict else 'nonstrict'
+        pre = 'C11.xla._is_dominated.' + sfx
+        Fn(chk, tier, '_is_dominated', xla_simple_entry('_is_dominated', strict), xla_simple_post('_is_dominated', pre),
+           bounded_sizes=[], rename=support_rename(pre), workers=1).run()
+        pre = 'C11.xla._is_pareto_optimal_against.' + sfx
+        Fn(chk, tier, '_is_pareto_optimal_against', xla_simple_entry('_is_pareto_optimal_against', strict),
+           xla_simple_post('_is_pareto_optimal_against', pre), replay_of=replay_points('xla', {'fn': '_is_pareto_optimal_against'}),
+           bounded_sizes=SMALL_NMD, rename=support_rename(pre), workers=1).run()
+    pre = 'C11.xla.pareto_rank'
+    Fn(chk, tier, 'pareto_rank', xla_simple_entry('pareto_rank', True), xla_simple_post('pareto_rank', pre),
+       replay_of=replay_points('xla', {'fn': 'pareto_rank'}), bounded_sizes=[(2, 2, 1), (2, 2, 2), (3, 3, 2)], rename=support_rename(pre), workers=1).run()
+
+
+def xla_preamble(chk, tier):
+    for f in ('_is_dominated', '_is_pareto_optimal_against', 'is_frontier', 'pareto_rank', 'JaxParetoOptimalAlgorithm.is_pareto_optimal'):
+        chk.function(XLA, f)
+    chk.assume('jax.numpy is modelled like numpy on the comparison-only fragment; jax.vmap is the pointwise map, jax.jit the identity '
+               '(pyvc/np_model.py); is_frontier is verified for every number of points and columns and for the enumerated shard counts '
+               '1 (finding), 2, 3, 4 and the default 10 (the loop over the shard intervals is unrolled)')
+
+
+# ------------------------------------------------------------------------------------------ 5b. bounded stand-ins (never counted as proved)
+def start_bounded(pool, tier):
+    q = tier == 'quick'
+    pool.start('enum_fast', 'c11_replay.py', ['enum_fast'],
+               {'n_max': 3 if q else 4, 'd_max': 2, 't_max': 3, 'm_max': 1 if q else 2, 'n_max_against': 3, 'values': [0, 1, 2]})
+    pool.start('enum_xla', 'c11_replay.py', ['enum_xla'], {'n_max': 3 if q else 4, 'd_max': 2, 'values': [0, 1, 2], 'shards': [1, 2, 3, 4, 10]})
+    pool.start('best_trials', 'c11_replay.py', ['best_trials'], {'n_max': 3 if q else 4, 'values': [0, 1]})
+
+
+def collect_bounded(chk, pool, tier):
+    """exhaustive small scopes on the REAL code (replay driver).  They are recorded with chk.bounded_standin; a failure
+    outside the recorded findings' classes is a violation (it was observed on the real code)."""
+    def violation(name, fn, rec, what):
+        chk.obligation(name, fn, 'bounded-enumeration', report.VIOLATED, 0.0, detail={'bounded': what}, model=json.dumps(rec)[:3000],
+                       replay={'mode': 'enumeration', 'failing_input': rec}, reproduced=True)
+
+    # FastParetoOptimalAlgorithm: independent confirmation of the deductive result and of the finding's class
+    out, raw = pool.get('enum_fast', timeout=600)
+    scope = 'all point sets n <= %d, d <= 2 over {0,1,2}, thresholds 1..3 (against: m <= %d)' % ((3, 1) if tier == 'quick' else (4, 2))
+    if out is None or 'checked' not in out:
+        chk.error('C11.bounded.Fast.exhaustive_small_scope', 'the enumeration driver failed: %s' % raw[-800:])
+    else:
+        bad = out['optimal_failures_without_tie'] + out['against_failures']
+        chk.bounded_standin('C11.bounded.Fast.exhaustive_small_scope', scope, 'held' if not bad else 'failed',
+                            detail={'checked': out['checked'], 'is_pareto_optimal failures, all with a tie in coordinate 0 (finding 8)': out['optimal_failures_with_tie_in_coordinate_0'],
+                                    'failures outside the finding class': len(bad)})
+        if bad:
+            violation('C11.bounded.Fast.exhaustive_small_scope', 'FastParetoOptimalAlgorithm', bad[0], scope)
+    # xla_pareto.is_frontier
+    out, raw = pool.get('enum_xla', timeout=600)
+    scope = 'all point sets n <= %d, d <= 2 over {0,1,2}, num_shards in {1,2,3,4,10}' % (3 if tier == 'quick' else 4)
+    if out is None or 'checked' not in out:
+        chk.error('C11.bounded.xla.is_frontier.exhaustive_small_scope', 'the enumeration driver failed: %s' % raw[-800:])
+    else:
+        bad = [r for k, v in out['failures_by_num_shards'].items() if k != '1' for r in v]
+        chk.bounded_standin('C11.bounded.xla.is_frontier.exhaustive_small_scope', scope, 'held' if not bad else 'failed',
+                            detail={'checked': out['checked'], 'num_shards=1 failures (finding 19)': len(out['failures_by_num_shards'].get('1', []))})
+        if bad:
+            violation('C11.bounded.xla.is_frontier.exhaustive_small_scope', 'is_frontier', bad[0], scope)
+    # InRamPolicySupporter.GetBestTrials: the selection step is checked ONLY by this bounded enumeration (label conversion goes
+    # through converters/jax code that the verifier cannot execute symbolically)
+    chk.function(LPS, 'InRamPolicySupporter.GetBestTrials', role='bounded stand-in only (selection step)')
+    out, raw = pool.get('best_trials', timeout=600)
+    scope = ('all studies with 1 (MAX or MIN) or 2 (MAX, MIN) objectives and <= %d completed trials, each infeasible or with values in {0,1}, '
+             'count unset' % (3 if tier == 'quick' else 4))
+    if out is None or 'checked' not in out:
+        chk.error('C11.bounded.GetBestTrials.selection', 'the enumeration driver failed: %s' % raw[-800:])
+        return
+    classes = [('C11.bounded.GetBestTrials.single_objective_returns_all_tied_best', 'single_objective_tie_returns_one'),
+               ('C11.bounded.GetBestTrials.infeasible_never_reported', 'infeasible_only_returns_infeasible'),
+               ('C11.bounded.GetBestTrials.multi_objective_pareto_set', 'multi_objective_with_infeasible_returns_nothing')]
+    detail = {'checked': out['checked'], 'failures outside the recorded classes': len(out['other_failures'])}
+    for name, key in classes:
+        detail[key] = out[key]
+    chk.bounded_standin('C11.bounded.GetBestTrials.selection', scope, 'held outside the recorded findings' if not out['other_failures'] else 'failed', detail=detail)
+    for name, key in classes:
+        f = chk.finding_for(name)
+        if out[key] and f is not None:
+            chk.obligation(name, 'InRamPolicySupporter.GetBestTrials', 'bounded-enumeration', report.KNOWN, 0.0,
+                           detail={'bounded': scope, 'failing inputs in the recorded class': out[key], 'failures outside the recorded classes': len(out['other_failures'])},
+                           finding='[bounded check] ' + f['what'])
+        elif out[key]:
+            violation(name, 'InRamPolicySupporter.GetBestTrials', out.get('example_' + key.split('_returns')[0], out), scope)
+    if out['other_failures']:
+        violation('C11.bounded.GetBestTrials.selection', 'InRamPolicySupporter.GetBestTrials', out['other_failures'][0], scope)
+
+
 # ------------------------------------------------------------------------------------------ main
 def _child(conn, fn, tier, args):
     try:
@@ -1581,13 +1824,20 @@ def main(tier):
         w = f.get('witness') or {}
         if f.get('status', 'open') == 'open' and w.get('driver') == 'replay/c11_replay.py':
             pool.start(f['obligation'], 'c11_replay.py', w['args'])
+    start_bounded(pool, tier)
     lot_preamble(chk, tier)
     fast_preamble(chk, tier)
-    tasks = [('naive', check_naive, ()), ('rank', check_rank, ()), ('fast_against_strict', check_fast_against, (True,)),
+    xla_preamble(chk, tier)
+    tasks = [('xla_simple', check_xla_simple, ())]
+    for k in (1, 2, 3, 4):
+        tasks.append(('xla_frontier_%d' % k, check_xla_frontier, (k,)))
+    tasks.append(('xla_class', check_xla_frontier, (10, True)))
+    tasks += [('naive', check_naive, ()), ('rank', check_rank, ()), ('fast_against_strict', check_fast_against, (True,)),
              ('fast_against_nonstrict', check_fast_against, (False,)), ('fast_optimal', check_fast_optimal, ())]
     for d in ((0, 1, 2) if tier == 'quick' else (0, 1, 2, 3, 4)):
         tasks.append(('ListOptimalTrials.d%d' % d, check_list_optimal_d, (d,)))
     run_parallel(chk, tier, tasks, budget_s=600 if tier == 'quick' else 3000)
+    collect_bounded(chk, pool, tier)
     # every recorded finding must still reproduce on the real code (otherwise the entry is stale: checker error)
     for f in chk.findings:
         if f.get('status', 'open') != 'open' or f['obligation'] not in pool.procs and f['obligation'] not in pool.results:
